@@ -357,6 +357,15 @@ Theorem float_shortest_digits_roundtrip : forall m e t, emit_float_ryu m e = Som
 Proof. exact emit_float_ryu_spec. Qed.
 Print Assumptions float_shortest_digits_roundtrip.
 
+(* round64 is a correct rounding: the binary64 it returns for m * 10^e is a canonical one (normalised 53-bit mantissa with
+   an exponent in range, or a subnormal at the smallest exponent) and lies within half a unit in its last place of the
+   value -- exactly half only when the mantissa is even (ties to even).  near_pair (A, B) mant  says  2 |A - mant B| <= B
+   for the fraction A / B = m * 10^e / 2^q.  (The exponent estimate inside round64 is validated by the function itself.) *)
+Theorem float_rounding_nearest : forall m e mant q, m <> 0 -> round64 m e = Some (mant, q) ->
+  near_pair (scaled_pair (dec_rat m e) q) mant /\ canonical mant q.
+Proof. exact round64_nearest. Qed.
+Print Assumptions float_rounding_nearest.
+
 (* a negative float (folded negation): minus sign and number, two tokens *)
 Theorem float_negative_tokens : forall d m e, sql_lex d (45 :: emit_float m e) = [TPunct 45; TNumber (emit_float m e)].
 Proof. exact emit_float_neg_tokens. Qed.
